@@ -17,7 +17,8 @@ Theorem C20_every_condition_has_its_documented_code :
     Some ("MICM State", 5); Some ("MICM State", 4);
     Some ("MICM Process", 1); Some ("MICM Species", 1);
     Some ("MICM Matrix", 1); Some ("MICM Matrix", 2); Some ("MICM Matrix", 3); Some ("MICM Matrix", 5); Some ("MICM Matrix", 4);
-    Some ("MICM Matrix", 1); Some ("MICM Matrix", 2); Some ("MICM Matrix", 3); None; None ]%nat.
+    Some ("MICM Matrix", 1); Some ("MICM Matrix", 2); Some ("MICM Matrix", 3); None; None;
+    Some ("MICM Matrix", 1); Some ("MICM Solver Builder", 3) ]%nat.
 Proof. vm_compute. reflexivity. Qed.
 Print Assumptions C20_every_condition_has_its_documented_code.
 
